@@ -444,7 +444,7 @@ def _equality(case, ctx, res):
         k, w = m2[int(rng.integers(0, len(m2)))]
         tgt = w if type(w).__name__ == "Array" else getattr(w, "xyz"[int(rng.integers(0, w.nvec))])
         j = int(rng.integers(0, n))
-        tgt._array[j] = tgt._array[j] + (3 if tgt._array.dtype.kind in "iu" else tgt._array[j] * 0.5 + 1.0)
+        tgt._array[j] = tgt._array[j] + (3 if tgt._array.dtype.kind in "iu" else abs(tgt._array[j]) * 0.5 + 1.0)   # never == old
         exp, changed = False, True
     elif mode == "all" and (n is None or n):
         for k, w in m2:
